@@ -135,6 +135,61 @@ func deref(cur any) (any, string, bool) {
 				return nil, rNilPointer, thru
 			}
 			cur = *p
+		case *map[int8]string:
+			if p == nil {
+				return nil, rNilPointer, thru
+			}
+			cur = *p
+		case **map[uint8]string:
+			if p == nil {
+				return nil, rNilPointer, thru
+			}
+			cur = *p
+		case *map[uint8]string:
+			if p == nil {
+				return nil, rNilPointer, thru
+			}
+			cur = *p
+		case *map[int16]string:
+			if p == nil {
+				return nil, rNilPointer, thru
+			}
+			cur = *p
+		case *map[uint16]string:
+			if p == nil {
+				return nil, rNilPointer, thru
+			}
+			cur = *p
+		case *map[int32]string:
+			if p == nil {
+				return nil, rNilPointer, thru
+			}
+			cur = *p
+		case *map[uint32]string:
+			if p == nil {
+				return nil, rNilPointer, thru
+			}
+			cur = *p
+		case *map[int64]string:
+			if p == nil {
+				return nil, rNilPointer, thru
+			}
+			cur = *p
+		case *map[uint64]string:
+			if p == nil {
+				return nil, rNilPointer, thru
+			}
+			cur = *p
+		case *map[uint]string:
+			if p == nil {
+				return nil, rNilPointer, thru
+			}
+			cur = *p
+		case *map[int]string:
+			if p == nil {
+				return nil, rNilPointer, thru
+			}
+			cur = *p
 		case *bool:
 			if p == nil {
 				return nil, rNilPointer, thru
@@ -162,6 +217,9 @@ func index(cur any, st Step) (any, string, string) {
 		return nil, out, pfx + "nil"
 	}
 	k := st.K
+	if v, o, kind, isIntMap := indexIntMap(cur, st, pfx); isIntMap {
+		return v, o, kind
+	}
 	switch c := cur.(type) {
 	case nil:
 		return nil, rIntoNil, "nil"
@@ -324,6 +382,12 @@ func nodeField(n Node, k string) (any, string, string) {
 		return n.Tags, reach, ".tag"
 	case "M":
 		return n.M, reach, ".name"
+	case "Small":
+		return n.Small, reach, ".name"
+	case "small":
+		return n.Small, reach, ".tag"
+	case "Bytes":
+		return n.Bytes, reach, ".name"
 	case "Leaf":
 		return n.Leaf, reach, ".embedded"
 	case "Deep":
@@ -387,8 +451,31 @@ func walk(v any, steps []Step) (any, string, []string) {
 	return cur, reach, thru
 }
 
+// validStepsFor is validSteps minus the region of an open known finding: the empty key of a map
+// that is not a plain map[string]any / map[string]string (typed maps and maps behind pointers
+// are resolved by internal/reflect.ResolveValue, which rejects an empty step).
+func validStepsFor(cur any, avoid func(id string) bool) []string {
+	steps := validSteps(cur)
+	switch cur.(type) {
+	case map[string]any, map[string]string:
+		return steps
+	}
+	for i, k := range steps {
+		if k == "" {
+			if avoid != nil && avoid(kfEmptyKey) {
+				return append(append([]string{}, steps[:i]...), steps[i+1:]...)
+			}
+			break
+		}
+	}
+	return steps
+}
+
 // validSteps lists the step texts that reach an element of cur (sorted, deterministic).
 func validSteps(cur any) []string {
+	if keys, _, _, ok := intMapInfo(cur); ok {
+		return intMapValid(keys)
+	}
 	cur, out, _ := deref(cur)
 	if out != reach {
 		return nil
@@ -433,7 +520,7 @@ func validSteps(cur any) []string {
 	case [3]int:
 		return idx(3)
 	case Node:
-		o := []string{"Name", "Title", "title", "Count", "count", "Any", "any", "Kids", "Next", "next", "Arr", "Tags", "tags", "M", "Leaf", "Deep", "Num", "PLeaf"}
+		o := []string{"Name", "Title", "title", "Count", "count", "Any", "any", "Kids", "Next", "next", "Arr", "Tags", "tags", "M", "Small", "small", "Bytes", "Leaf", "Deep", "Num", "PLeaf"}
 		if c.PLeaf != nil {
 			o = append(o, "PDeep")
 		}
@@ -493,6 +580,9 @@ func isMapSS(cur any) bool {
 func invalidSteps(cur any, avoid func(id string) bool) []string {
 	if isMapSS(cur) && avoid != nil && avoid(kfMapSS) {
 		return nil // missing key of a map[string]string: region of the open finding
+	}
+	if keys, bits, signed, ok := intMapInfo(cur); ok {
+		return intMapInvalid(keys, bits, signed)
 	}
 	if n, ok := seqLen(cur); ok {
 		return []string{strconv.Itoa(n), strconv.Itoa(n + 3), "-1", "-2", "x", "99999999999999999999"}
@@ -588,7 +678,7 @@ func spell(name string, steps []Step) (path string, ok bool, exotic bool) {
 			}
 			b.WriteString("." + st.K)
 		case 1:
-			if _, numeric, canon := canonInt(st.K); !numeric || !canon {
+			if !decimal(st.K) {
 				return "", false, false
 			}
 			b.WriteString("[" + st.K + "]")
